@@ -425,6 +425,71 @@ fn observe_mb(input: &[u8]) -> Vec<(String, usize, usize)> {
     r.unwrap_or_else(|_| vec![("PANIC".to_string(), 0, 0)])
 }
 
+
+/// closure bodies of several syntactic shapes (a parenthesised operand followed by an operator, a
+/// method call on a parenthesised expression, a cast, a lone block, a lone parenthesised
+/// expression): the value the closure computes is the value that must arrive in the item
+#[derive(Logos, Debug, Clone, PartialEq)]
+#[logos(extras = Log)]
+#[logos(error(MyErr, callback = |lex| (MyErr::At(lex.span().start, lex.span().end))))]
+#[logos(skip " +")]
+pub enum CS {
+    #[regex("a[0-9]*", |lex| (note(lex)) + 100)]
+    A(usize),
+    #[regex("b[0-9]*", |lex| (note(lex) % 2 == 0) && false)]
+    B,
+    #[regex("c[0-9]*", |lex| (note(lex) + 1).pow(2))]
+    C(usize),
+    #[regex("f[0-9]*", |lex| (note(lex)))]
+    F(usize),
+    #[regex("g[0-9]*", callback = |lex| { note(lex) })]
+    G(usize),
+    #[regex("h[0-9]*", |l| (note(l)) as usize * 2)]
+    H(usize),
+    #[regex("i[0-9]*", |lex| (note(lex) % 2 == 0) || true)]
+    I,
+}
+
+fn reference_cs(input: &str) -> (Vec<(String, usize, usize)>, Log) {
+    let b = input.as_bytes();
+    let (mut items, mut log): (Vec<(String, usize, usize)>, Log) = (vec![], vec![]);
+    let mut p = 0;
+    while p < b.len() {
+        let c = b[p];
+        if c == b' ' {
+            p += 1;
+            continue;
+        }
+        if !b"abcfghi".contains(&c) {
+            let mut e = p + 1;
+            while !input.is_char_boundary(e) {
+                e += 1;
+            }
+            items.push((format!("Err(At({p}, {e}))"), p, e));
+            p = e;
+            continue;
+        }
+        let mut e = p + 1;
+        while e < b.len() && b[e].is_ascii_digit() {
+            e += 1;
+        }
+        let n = e - p;
+        log.push((p, e, input[p..e].to_string()));
+        let it = match c {
+            b'a' => format!("Ok(A({}))", n + 100),
+            b'b' => format!("Err(At({p}, {e}))"),
+            b'c' => format!("Ok(C({}))", (n + 1) * (n + 1)),
+            b'f' => format!("Ok(F({n}))"),
+            b'g' => format!("Ok(G({n}))"),
+            b'h' => format!("Ok(H({}))", 2 * n),
+            _ => "Ok(I)".to_string(),
+        };
+        items.push((it, p, e));
+        p = e;
+    }
+    (items, log)
+}
+
 // ---------------------------------------------------------------- the boring reference
 #[derive(Clone, Copy, PartialEq)]
 pub enum Which {
@@ -636,6 +701,8 @@ pub fn run(tier: &str, rep: &mut Report) {
     for s in ["/*abc*/x", "/***/a/**/", "rem=abc\nz", "a rem x*/\nrem", "/* rem\n*/rem", "remx rem", "/*", "rem"] {
         check(rep, "MK", s, observe::<MK>(s), reference_mk(s), &mut digest);
     }
+    // closure bodies of several syntactic shapes
+    strings(&["a", "b", "c", "f", "g", "h", "i", "0", "1", " ", "!", "é"], l + 1, &mut |s| check(rep, "CS", s, observe::<CS>(s), reference_cs(s), &mut digest));
     // longer digit runs and bump runs
     for letter in "abcdefghijklmnopvwxyz".chars() {
         for n in 0..=5 {
@@ -712,6 +779,7 @@ pub fn replay(rec: &serde_json::Value, rep: &mut Report) {
         "C" => observe::<C>(input) != reference(input, Which::Closures),
         "ML" => observe::<ML>(input) != reference_ml(input),
         "MK" => observe::<MK>(input) != reference_mk(input),
+        "CS" => observe::<CS>(input) != reference_cs(input),
         "MB" => observe_mb(input.as_bytes()) != reference_mb(input.as_bytes()),
         _ => observe::<M>(input).0 != observe::<Twin>(input).0,
     };
